@@ -129,6 +129,15 @@ def run(vc, tier):
             todo[(si, mode)] = reps(b, mode) * npoints(b)
             if todo[(si, mode)] == 0:
                 X['scenario_modes_completed'] += 1
+        # ---- phase 3: every data-writing call fails once with ENOSPC (the process lives on): non-zero exit status, data still recoverable
+        X['write_failures_injected'] = 0
+        ftasks = [(si, k) for si, mode in plan if mode == 'fs' for k in range(1, max(base[(si, mode)]['n']) + 1)]
+        for r in pool.imap_unordered(L.task_fail, ftasks, chunksize=4):
+            c.evaluations += 1
+            if r['injected']:
+                X['write_failures_injected'] += 1
+            for t in r['viols']:
+                note(L.SCEN[r['si']], 'fs', r['k'], t)
         pend = {}
         for r in pool.imap_unordered(L.task_kill, tasks(), chunksize=4):
             sc = L.SCEN[r['si']]; b = base[(r['si'], r['mode'])]; key = (r['si'], r['mode'], r['k'])
